@@ -61,6 +61,7 @@ type Client struct {
 	invHandlers       map[wamp.ID]InvocationHandler
 	invHandlersQueues map[clientInvocation]chan *wamp.Invocation
 	invHandlersCtxs   map[clientInvocation]context.Context
+	invHandlersFinal  map[clientInvocation]struct{}
 	nameProcID        map[string]wamp.ID
 	invHandlerKill    map[wamp.ID]context.CancelFunc
 	progGate          map[wamp.ID]struct{}
@@ -275,6 +276,7 @@ func NewClient(p wamp.Peer, cfg Config) (*Client, error) {
 		invHandlers:       map[wamp.ID]InvocationHandler{},
 		invHandlersQueues: map[clientInvocation]chan *wamp.Invocation{},
 		invHandlersCtxs:   map[clientInvocation]context.Context{},
+		invHandlersFinal:  map[clientInvocation]struct{}{},
 		nameProcID:        map[string]wamp.ID{},
 		invHandlerKill:    map[wamp.ID]context.CancelFunc{},
 		progGate:          map[wamp.ID]struct{}{},
@@ -1594,6 +1596,7 @@ func (c *Client) cleanupInvHandlersQueue(cliInvocation clientInvocation) {
 	}
 	delete(c.invHandlersQueues, cliInvocation)
 	delete(c.invHandlersCtxs, cliInvocation)
+	delete(c.invHandlersFinal, cliInvocation)
 
 	c.sess.Unlock()
 	// Drain chan in case anyone is blocked.
@@ -1727,11 +1730,28 @@ func (c *Client) runHandleInvocation(msg *wamp.Invocation) {
 			ctx = context.WithValue(ctx, invocationIDCtxKey{}, reqID)
 		}
 	} else {
+		if _, final := c.invHandlersFinal[cliInvocation]; final {
+			// The last message of this invocation was already received, so
+			// this is a duplicate from the router. Waiting for room in the
+			// queue would block the receive loop for nothing.
+			c.sess.Unlock()
+			c.log.Println("Ignoring repeated INVOCATION", reqID)
+			return
+		}
 		c.sess.UpdateLastRecvIDLocked(reqID)
+	}
+	if inProgress, _ := msg.Details[wamp.OptProgress].(bool); !inProgress {
+		c.invHandlersFinal[cliInvocation] = struct{}{}
 	}
 	c.sess.Unlock()
 
-	handlerQueue <- msg
+	select {
+	case handlerQueue <- msg:
+	case <-ctx.Done():
+		// The invocation ended or was canceled while its handler was busy.
+	case <-c.sess.RecvDone():
+		// Client is closing.
+	}
 
 	if !queueExists {
 		// Start a goroutine to run the user-defined invocation handler.
